@@ -29,6 +29,9 @@ def run(chk):
             chk.violation("harness: %r" % (r,), c, "checksums:digest")
             continue
         want, got, via, again = r
+        if again is not None and len(again) > 2 and again[0][0] == "ok" and again[2] != [[c["alg"], again[0][1]]]:
+            chk.violation("Checksums.add on an object that already holds a digest for the path recorded %r after the file changed; "
+                          "the digest of the file is %r" % (again[2], again[0][1]), c, "checksums:digest")
         if again is not None and again[0] != again[1]:
             chk.violation("compute_checksum(%d bytes, %s) after the file was replaced in place by other content of the same length "
                           "and timestamps = %r, hashlib one-shot digest of the new content = %r" % (c["size"], c["alg"], again[1], again[0]),
